@@ -32,7 +32,7 @@ KEY_SINGLE_CLUSTER = "hcv: labels_pred has a single cluster -> completeness is n
 
 TRACE_SPEC = ("metrics/MetricsTrace.tla", "metrics/MetricsTrace.cfg")
 MUST_HIT = ("accuracy", "precision", "recall", "fbeta", "auc", "mse", "mae", "r2", "LengthMismatch", "Unconstrained",
-            "AucTies", "AucConstant", "SinglePosOrNeg", "Scaled", "Offset", "AucScaled", "AucNeighbours", "AucCloserThanEps", "R2ScaledFar", "AucKiller", "ArgSortKiller", "LengthLadder", "BlockMultiple", "HcvLadder", "NdStrided", "HcvNdStrided", "Expect", "HCV", "HcvSingleClass", "HcvPure", "HcvMixed",
+            "AucTies", "AucConstant", "SinglePosOrNeg", "Scaled", "Offset", "AucScaled", "AucNeighbours", "AucCloserThanEps", "R2ScaledFar", "AucKiller", "ArgSortKiller", "LengthLadder", "BlockMultiple", "HcvLadder", "NdStrided", "HcvNdStrided", "Nalgebra", "AucExtreme", "LengthMismatchBackEnd", "LengthMismatchOneVsN", "Expect", "HCV", "HcvSingleClass", "HcvPure", "HcvMixed",
             "HcvDyadic", "HcvDyadicMixed", "HcvIndependent", "HcvIdentical", "ArgSort", "ArgSortLong")
 
 
